@@ -74,12 +74,12 @@ Example C06_nonvacuous :
   let hist := [SOp (OSpawn 1 [5;2;0;1]); SOp (OSpawn 2 [3;0;6;1]); SOp (ORemove 1 0); SOp (OInsert 1 4); SOp ORebuild;
                SOp (ODespawn 2); SOp (OInsert 1 0); SOp (OSpawn 3 [7]); SFrame fr; SOp (OInsert 2 3)] in
   let G c := GShared c (ctx_prio c) [1] (mkInst None [] []) in
-  option_map (fun w => map g_ctx (w_reg w)) (steps_world sc world_init (firstn 2 hist)) = Some [0; 1; 6; 3; 2; 5] /\
+  option_map (fun w => map g_ctx (w_reg w)) (steps_world sc world_init (firstn 2 hist)) = Some [6; 0; 1; 3; 2; 5] /\
   option_map (fun w => map g_ctx (w_reg w)) (steps_world sc world_init (firstn 6 hist)) = Some [1; 4; 2; 5] /\
   option_map (fun w => (map g_ctx (w_reg w), map g_prio (w_reg w))) (steps_world sc world_init hist)
-    = Some ([0; 1; 4; 7; 2; 5], [30; 20; 10; 5; -10; -20]) /\
-  (bsearch 10 [G 0; G 6; G 3; G 5], bsearch 15 [G 0; G 6; G 3; G 5], bsearch 40 [G 0; G 6], bsearch (-30) [G 0; G 6])
-    = (2%nat, 1%nat, 0%nat, 2%nat).
+    = Some ([0; 1; 4; 7; 2; 5], [30; 20; 10; 5; -10; -9223372036854775808]) /\
+  (bsearch 10 [G 6; G 0; G 3; G 5], bsearch 15 [G 6; G 0; G 3; G 5], bsearch 40 [G 6; G 0], bsearch (-30) [G 6; G 0])
+    = (2%nat, 2%nat, 1%nat, 2%nat).
 Proof. vm_compute. repeat split. Qed.
 
 Print Assumptions C06_bsearch_position.
